@@ -226,6 +226,9 @@ func run(id string, cfg propCfg, tier string, seed uint64, replay, scratch strin
 	build(scratch, cfg.Race)
 	bin := filepath.Join(scratch, "worker.test")
 	known := verif + "/known_findings.json"
+	if v := os.Getenv("VERIF_KNOWN_FILE"); v != "" {
+		known = v // development aid: triage with a reduced list
+	}
 	if replay != "" {
 		return doReplay(bin, id, replay, true)
 	}
